@@ -18,12 +18,77 @@ import sympy as sp
 from ..index import AnalysisError, FunctionInfo, Index, const_str_set, full, norm, own_nodes
 from ..report import Report
 from ..rules.npapi import check_numpy_api
+from ..rules import circuitsem as cs
 from .. import symx
 
 TRIM = "tangelo/toolboxes/operators/trim_trivial_qubits.py"
 FILES = ["tangelo/toolboxes/operators/multiformoperator.py", "tangelo/toolboxes/operators/z2_tapering.py", "tangelo/toolboxes/operators/taper_qubits.py",
          "tangelo/helpers/math.py", TRIM]
 Z2T = "tangelo/toolboxes/operators/z2_tapering.py"
+
+
+def check_clifford_choice(idx: Index, rep: Report):
+    """get_clifford_operators folded on concrete symmetry kernels (numpy evaluates the array primitives; the operator constructor is a recording stand-in).
+    Tapering rests on one algebraic fact per generator tau_i: the single-qubit Pauli sigma_i paired with it anticommutes with tau_i and commutes with every other
+    generator, and the sigma_i sit on distinct qubits (then U_i = (sigma_i + tau_i)/sqrt2 are commuting Cliffords that map tau_i onto sigma_i).  Decided with the
+    symplectic form on the binary rows, for Z-type kernels whose generators share qubits with some, all or none of the others."""
+    import numpy as np
+    from ..consteval import Raised, Undecidable
+    rule = "K9.clifford-choice"
+    f = idx.function(f"{Z2T}::get_clifford_operators")
+
+    def kernel(words):
+        return np.array([[1 if c in "XY" else 0 for c in w] + [1 if c in "ZY" else 0 for c in w] for w in words], dtype=bool)
+
+    def anti(a, b):
+        n = len(a) // 2
+        return (int(np.dot(a[:n].astype(int), b[n:].astype(int))) + int(np.dot(a[n:].astype(int), b[:n].astype(int)))) % 2 == 1
+
+    class _Cl:
+        _sa_model = True
+
+        def __init__(self, bin_op=None, factors=None):
+            self.bin_op, self.factors = np.array(bin_op), factors
+    # Z-type generators, as the kernels of molecular Hamiltonians under every encoding of the library are; every generator owns a qubit, and sits on qubits it
+    # shares with none, some or all of the others - before and after the one it owns
+    kernels = (["ZIZI", "IZIZ"], ["ZIIZI", "ZZIII", "IIZIZ"], ["ZZIIZI", "ZIZIIZ", "IZZZII"], ["ZZZIII", "ZIIZII", "IZIIZI", "ZZIIIZ"],
+               ["ZIIIZ", "ZZIII", "ZIZII", "ZIIZI"], ["IZZI", "ZZIZ"], ["ZZZZ"])
+    n = 0
+    for words in kernels:
+        k = kernel(words)
+        if any(anti(a, b) for i, a in enumerate(k) for b in k[i + 1:]):
+            raise AnalysisError(f"checker table: the generators {words} do not commute")
+        fo = cs.make_folder(idx, Z2T, ctors={"MultiformOperator.from_binaryop": lambda a, kw: _Cl(*a, **kw)})
+        fo.real_arrays = True
+        try:
+            cliffords, indices = fo.run_function(f.node, {"kernel": k})
+        except Undecidable as e:
+            raise AnalysisError(f"get_clifford_operators not foldable on {words}: {e}")
+        except Raised as e:
+            n += 1
+            rep.violation(rule, f, f.node, text=f"generators {words}", what="a Clifford operator is found for every generator", reason=f"raises {e.exc_type}")
+            continue
+        bad = []
+        if len(cliffords) != len(words) or len(set(int(q) for q in indices)) != len(words):
+            bad.append(f"{len(cliffords)} operators on qubits {[int(q) for q in indices]} for {len(words)} generators that each own a qubit")
+        for c, q in zip(cliffords, indices):
+            sigma, tau = c.bin_op[0], c.bin_op[1]
+            owner = [i for i, row in enumerate(k) if np.array_equal(row, tau)]
+            nq = k.shape[1] // 2
+            single = int(sigma[:nq].sum() + sigma[nq:].sum()) >= 1 and all(not (sigma[j] or sigma[j + nq]) for j in range(nq) if j != int(q))
+            if len(owner) != 1 or not single:
+                bad.append(f"qubit {int(q)}: the pair is not (a Pauli on that qubit, one of the generators)")
+                continue
+            if not anti(sigma, tau):
+                bad.append(f"the Pauli on qubit {int(q)} commutes with its own generator {words[owner[0]]}")
+            clash = [words[j] for j, row in enumerate(k) if j != owner[0] and anti(sigma, row)]
+            if clash:
+                bad.append(f"the Pauli on qubit {int(q)} chosen for {words[owner[0]]} anticommutes with {clash}")
+        n += 1
+        rep.decide(not bad, rule, f, f.node, text=f"generators {words}: {len(cliffords)} Clifford pairs on qubits {[int(q) for q in indices]}",
+                   what="the single-qubit Pauli paired with a generator anticommutes with it and commutes with every other generator; one pair per generator, on distinct qubits",
+                   reason="; ".join(bad[:3]))
+    rep.floor("symmetry kernels folded", n, 6)
 
 
 def run(idx: Index, rep: Report, tier: str):
@@ -38,6 +103,7 @@ def run(idx: Index, rep: Report, tier: str):
     check_trim_operator(idx, rep)
     check_bitflip_predicate(idx, rep)
     check_truncation(idx, rep)
+    check_clifford_choice(idx, rep)
     # trim_trivial_circuit finishes with Circuit.trim_qubits, trim_trivial_operator(reindex=True) renumbers the operator in increasing order: both have to agree
     from .C09 import check_trim_relabelling
     check_trim_relabelling(idx, rep)
